@@ -184,14 +184,41 @@ def validate_primitives():
     _expect("CBOR aad", cbor2.dumps([1, [10], b"\x00", b"\x14", b""]), h("8501810a4100411440"))
     for v in [0, 23, 24, 255, 256, 65535, 65536, 2**32, -1, -24, -25, -65531, b"", b"x" * 300, "Encrypt0", [1, [2, None]], {4: b"k", 6: b"\x01"}, True, False, None]:
         _expect("CBOR round trip of %r" % (v,), cbor2.loads(cbor2.dumps(v)), v)
+    # RFC 8613 Appendix C with the stand-ins alone (independent of the tree under test)
+    secret, salt = h("0102030405060708090a0b0c0d0e0f10"), h("9e7ca92223786340")
+
+    def kdf(role_id, id_context, typ, length):
+        info = cbor2.dumps([role_id, id_context, 10, typ, length])
+        return HKDF(algorithm=hashes.SHA256(), length=length, salt=salt, info=info).derive(secret)
+
+    _expect("RFC 8613 C.1.1 sender key (stand-ins only)", kdf(b"", None, "Key", 16), h("f0910ed7295e6ad4b54fc793154302ff"))
+    _expect("RFC 8613 C.1.1 recipient key (stand-ins only)", kdf(b"\x01", None, "Key", 16), h("ffb14e093c94c9cac9471648b4f98710"))
+    _expect("RFC 8613 C.1.1 common IV (stand-ins only)", kdf(b"", None, "IV", 13), h("4622d4dd6d944168eefb54987c"))
+    _expect("RFC 8613 C.3.1 sender key (stand-ins only)", HKDF(algorithm=hashes.SHA256(), length=16, salt=salt, info=cbor2.dumps([b"", h("37cbf3210017a2d3"), 10, "Key", 16])).derive(secret), h("af2a1300a5e95788b356336eeecd2b92"))
+    # C.4: plaintext 01b3747631, nonce = common IV xor (00.. | 14), AAD = Enc_structure
+    aad = cbor2.dumps(["Encrypt0", b"", cbor2.dumps([1, [10], b"", b"\x14", b""])])
+    _expect("RFC 8613 C.4 AAD (stand-ins only)", aad, h("8368456e63727970743040488501810a40411440"))
+    _expect(
+        "RFC 8613 C.4 ciphertext (stand-ins only)",
+        aead.AESCCM(h("f0910ed7295e6ad4b54fc793154302ff"), 8).encrypt(h("4622d4dd6d944168eefb549868"), h("01b3747631"), aad),
+        h("612f1092f1776f1c1668b3825e"),
+    )
+    # C.7: response 45 ff "Hello World!" under the server key with the request's nonce
+    _expect(
+        "RFC 8613 C.7 ciphertext (stand-ins only)",
+        aead.AESCCM(h("ffb14e093c94c9cac9471648b4f98710"), 8).encrypt(h("4622d4dd6d944168eefb549868"), h("45ff48656c6c6f20576f726c6421"), aad),
+        h("dbaad1e9a7e7b2a813d3c31524378303cdafae119106"),
+    )
 
 
-def validate(oscore=None):
-    """RFC 8613 Appendix C through aiocoap's own code + the (stand-in) libraries."""
-    if _state["validated"]:
-        return
-    oscore = oscore or ensure()
-    validate_primitives()
+class _TreeDeviation(Exception):
+    pass
+
+
+def _vectors_through_tree(oscore, _expect):
+    """RFC 8613 Appendix C through aiocoap's own protect/unprotect code.  The
+    stand-ins have been validated on their own before, so a difference here is a
+    property of the tree under test, not of the machinery."""
     import aiocoap
     from aiocoap.message import Direction
 
@@ -241,14 +268,6 @@ def validate(oscore=None):
     plain, rid = srv.unprotect(incoming)
     _expect("C.4 unprotected code", int(plain.code), 1)
     _expect("C.4 unprotected path", tuple(plain.opt.uri_path), ("tv1",))
-    incoming = aiocoap.Message.decode(enc)
-    incoming.direction = Direction.INCOMING
-    try:
-        srv.unprotect(incoming)
-    except oscore.ReplayError:
-        pass
-    else:
-        raise MachineryError("self-validation: replay of the C.4 request was accepted")
     # C.5 / C.6
     enc, _, _ = protect(ctx(b"\x00", b"\x01", None, seq=20), "440171c30000b932396c6f63616c686f737483747631")
     _expect("C.5 protected request", enc, h("440271c30000b932396c6f63616c686f737463091400ff4ed339a5a379b0b8bc731fffb0"))
@@ -277,7 +296,34 @@ def validate(oscore=None):
     resp.direction = Direction.INCOMING
     plain, _ = cl.unprotect(resp, oscore.RequestIdentifiers(b"", b"\x14", False, aiocoap.POST))
     _expect("C.8 unprotected payload", plain.payload, b"Hello World!")
+
+
+def validate(oscore=None):
+    """Stand-ins against published vectors (MachineryError on failure); then the
+    RFC 8613 vectors through the tree under test (deviations are recorded and
+    reported by the checks as DRIFT -- they are the tree's, not the machinery's)."""
+    if _state["validated"]:
+        return
+    oscore = oscore or ensure()
+    validate_primitives()
+    devs = []
+
+    def expect(what, got, want):
+        if got != want:
+            devs.append("%s: got %s, RFC 8613 says %s" % (what, got.hex() if isinstance(got, bytes) else got, want.hex() if isinstance(want, bytes) else want))
+
+    try:
+        _vectors_through_tree(oscore, expect)
+    except MachineryError:
+        raise
+    except Exception as e:
+        devs.append("RFC 8613 vector run through the tree under test raised %r" % (e,))
+    _state["tree_deviations"] = devs
     _state["validated"] = True
+
+
+def tree_deviations():
+    return list(_state.get("tree_deviations", []))
 
 
 def setup():
